@@ -107,3 +107,91 @@ package statedb
 //@   ensures @inv e != nil ==> (!e.used ==> len(e.tail) == 0)
 //@   ensures @count e != nil ==> (e.used ? 1 + len(e.tail) : 0) == old(e.used ? 1 + len(e.tail) : 0) - (removed ? 1 : 0)
 //@   ensures @nil e == nil ==> !removed
+
+// ---------------------------------------------------------------------------
+// Root pointer protocol (C02, C05, C06, C10, C19).
+//
+// Ghost state (see /verif/contracts/20_sync.spec): GH_held[m] - mutex m is held by this
+// goroutine; GH_smus[arr] - the SortableMutexes set with that backing array is locked;
+// GH_stores[p] - number of Store calls on atomic pointer p so far; GH_lastStored[p].
+
+// Interface methods called on these paths: assumed to have no effect on the ghost state,
+// the closed-ness of channels or the root protocol (their implementations are metrics
+// sinks and table metadata accessors).
+//@ func Metrics.*
+//@   trusted
+//@   pure
+//@ func TableMeta.Name
+//@   trusted
+//@   pure
+//@ func TableMeta.released
+//@   trusted
+//@   pure
+//@ func TableMeta.acquired
+//@   trusted
+//@   pure
+//@ func TableMeta.tablePos
+//@   trusted
+//@   pure
+//@ func TableMeta.setTablePos
+//@   trusted
+//@   pure
+//@ func TableMeta.tableEntry
+//@   trusted
+//@   pure
+//@   ensures result != nil
+//@ func TableMeta.sortableMutex
+//@   trusted
+//@   pure
+//@ func tableIndex.len
+//@   trusted
+//@   pure
+//@ func tableIndex.commit returns (idx, txn)
+//@   trusted
+//@   modifies H_part_Txn_* H_lpm_Txn_* H_statedb_lpmIndexTxn_* H_statedb_partIndexTxn_*
+//@ func tableIndexTxnNotify.notify
+//@   trusted
+//@   modifies CH_closed H_part_Txn_* H_statedb_lpmIndexTxn_* H_statedb_partIndexTxn_* H_statedb_lpmIndex_*
+
+//@ func (*DB).updateWriteTxnPoolLocked
+//@   trusted
+//@   modifies H_sync_Pool_New
+
+// registerTable: read-modify-write of the root entirely inside db.mu; the new root is the
+// old one plus exactly one entry.
+//@ func (*DB).registerTable
+//@   property C05 C10
+//@   flag nosafety
+//@   requires !GH_held[addr(db.mu)]
+//@   atcall Load@1 requires @load-under-mu GH_held[addr(db.mu)]
+//@   atcall Store@1 requires @store-under-mu GH_held[addr(db.mu)]
+//@   ensures @unlocked !GH_held[addr(db.mu)]
+//@   ensures @one-store result == nil ==> GH_stores[addr(db.root)] == old(GH_stores[addr(db.root)]) + 1
+//@   ensures @no-store-on-error result != nil ==> GH_stores[addr(db.root)] == old(GH_stores[addr(db.root)])
+
+// ---------------------------------------------------------------------------
+// Table initialisation (C19): registration and mark-done are copy-on-write. The table entry
+// of a locked table is the transaction's private copy (made by WriteTxn); everything else
+// that existed before - in particular the tableInitialization shared with the committed
+// root and with earlier snapshots - must not be written.
+
+//@ spec unwrapOf(t WriteTxn) *writeTxnState
+//@ func WriteTxn.unwrap
+//@   trusted
+//@   pure
+//@   ensures result == unwrapOf(recv)
+
+//@ func (*genTable).RegisterInitializer
+//@   property C19 C01 C02
+//@   maypanic
+//@   requires t != nil && unwrapOf(txn) != nil && 0 <= t.pos && t.pos < len(unwrapOf(txn).tableEntries) && unwrapOf(txn).tableEntries[t.pos] != nil
+//@   ensures @frame onlyFreshExcept(old(unwrapOf(txn).tableEntries[t.pos]))
+//@   ensures @cow unwrapOf(txn).tableEntries[t.pos].init != nil && fresh(unwrapOf(txn).tableEntries[t.pos].init)
+
+//@ func (*genTable).RegisterInitializer$1$1
+//@   property C19 C01 C02
+//@   maypanic
+//@   requires t != nil && unwrapOf(txn) != nil && 0 <= t.pos && t.pos < len(unwrapOf(txn).tableEntries) && unwrapOf(txn).tableEntries[t.pos] != nil
+//@   requires unwrapOf(txn).tableEntries[t.pos].init != nil
+//@   ensures @frame onlyFreshExcept(old(unwrapOf(txn).tableEntries[t.pos]))
+//@   ensures @cow fresh(unwrapOf(txn).tableEntries[t.pos].init)
